@@ -281,6 +281,24 @@ def sched_random(rng):
     return pipe_hup_guard(kind, out)
 
 
+# directed, on every run: water marks around the internal chunk size.  With low water above the chunk
+# a filled buffer is held back in op->data and the next buffer must be sized high - held-back
+# (seeded/C14-1); with a short write followed by STOP / a progress report the unwritten tail must
+# start behind the bytes already written (seeded/C14-2).  (pages, schedule)
+DIRECTED_MARKS = [
+    (1, "exec 3 %d 0 20000\nlow 5000\nhigh 5000\nread 15000\nend"),
+    (1, "exec 3 %d 0 30000\nlow 6000\nhigh 7000\nread 20000\nread -1\nend"),
+    (1, "exec 3 %d 4 20000\nhigh 5000\nlow 5000\nread 15000\nend"),
+    (2, "exec 3 %d 0 60000\nlow 10000\nhigh 10000\nread 40000\nend"),
+    (1, "exec 0 %d 0 0\nlow 5000\nhigh 5000\npw 15000\nsleep 3000\nread 15000\nend"),
+    (2, "exec 2 %d 0 0\nlow 12000\nhigh 13000\npw 40000\nsleep 3000\nread 40000\nend"),
+    (1, "exec 0 %d 2 0\nlow 9000\nhigh 9000\npw 30000\nsleep 3000\nread 30000\npc\nend"),
+    (4, "exec 1 %d 0 0\nlow 1\nwrite 300000 1 0 0\npr 1000\nwaith 1 50000\nsleep 5000\nstop\nend"),
+    (4, "exec 2 %d 0 0\nhigh 100000\nwrite 90000 2 30000 0\nwrite 300000 1 0 0\npr 20000\nwaith 2 50000\nsleep 5000\nstop\nend"),
+    (4, "exec 1 %d 0 0\nlow 1000\nwrite 200000 1 0 0\npr 70000\nsleep 5000\npr -1\nend"),
+]
+
+
 def sched_random_conv(rng):
     """dispatch_read / dispatch_write on a pipe or a socketpair."""
     kind = rng.choice([K_CONV_IN, K_CONV_OUT, K_CONV_SOCK])
@@ -643,7 +661,7 @@ def traces(v, tier, seed):
     drv = build_driver("drv_io")
     rng = random.Random(seed * 7919 + 13)
     kf_listed = set(f.get("key") for f in known_findings(PROP)["findings"])
-    nsim, ntake, nrand = (1000, 220, 220) if tier == "quick" else (4000, 900, 1200)
+    nsim, ntake, nrand = (600, 130, 110) if tier == "quick" else (4000, 900, 1200)
     if os.environ.get("C14_COUNTS"):      # debugging aid
         nsim, ntake, nrand = [int(x) for x in os.environ["C14_COUNTS"].split(",")]
     tl, rsim = tlc_schedules(seed, nsim)
@@ -671,7 +689,9 @@ def traces(v, tier, seed):
     for i in range(nrand):
         add(sched_random(rng) if i % 5 else sched_random_conv(rng), pages_opts[rng.randrange(4)])
     for i, dsc in enumerate(DIRECTED):
-        batches[(4, False)].insert(0, dsc % 4)
+        batches.setdefault((4, False), []).insert(0, dsc % 4)
+    for pages, dsc in DIRECTED_MARKS:
+        add(dsc, pages)
     # split into driver runs of bounded size
     per = 30 if tier == "quick" else 60
     jobs = []
